@@ -790,7 +790,7 @@ func init() {
 	props["C20"] = propC20
 	propMeta["C20"] = PropMeta{
 		Technique:   "static analysis: exhaustive evaluation of constant tables from the type-checked AST and of the embedded YAML data",
-		Explanation: "Exhaustive over every table entry: record type name<->number maps are inverse bijections over the same constant set with upper-case names that cannot collide with the UNKNOWN[n] form (so all 65536 codes round-trip, text marshalling included); errno name->number->name is consistent for every entry, aliases resolving to one number; architecture names are injective and every architecture name used by the rule encoder/decoder exists; per-architecture syscall tables map a name to one number; the rule field/operator/comparison tables have well-defined reverses; every record type and syscall named in the embedded normalizations.yaml exists in the parser's tables, no syscall appears in two normalisations and duplicate record types obey the loader's has_fields rule; categorisation is a pure function; selection does not depend on map iteration order.",
+		Explanation: "Exhaustive over every table entry: record type name<->number maps are inverse bijections over the same constant set with upper-case names that cannot collide with the UNKNOWN[n] form (so all 65536 codes round-trip, text marshalling included); errno name->number->name is consistent for every entry, aliases resolving to one number; architecture names are injective and every architecture name used by the rule encoder/decoder exists; b32/b64 resolve to the runtime architecture or its 32-bit compat architecture and are listed back only for exactly those; errno names in exit filters resolve through the alias-complete table; per-architecture syscall tables map a name to one number; the rule field/operator/comparison tables have well-defined reverses; every record type and syscall named in the embedded normalizations.yaml exists in the parser's tables, no syscall appears in two normalisations and duplicate record types obey the loader's has_fields rule; categorisation is a pure function; selection does not depend on map iteration order.",
 		NotDecided:  "Nothing material: the clause is finite and is enumerated completely.",
 		Assumptions: []string{"Go map literal semantics", "yaml.v3 decodes anchors/merge keys as the library does (same decoder)"},
 	}
